@@ -245,7 +245,7 @@ func init() {
 					continue
 				}
 				inside := !boundary[k] && k < a.base+len(a.payload)
-				emitX(a.file[:k], "truncated", VL{VT("trunc"), vbool(inside)})
+				emitX(a.file[:k], "truncated", VL{VT("trunc"), vbool(inside), blksVal(a.blks), VN(uint64(a.base)), VN(uint64(len(a.payload)))})
 			}
 			for t := 0; t < 60; t++ {
 				g := append([]byte(nil), a.file...)
